@@ -149,6 +149,9 @@ def search(run, info):
     tu = [[("u.st", rules_corr.gen_type_unit(rng))] for _ in range(500 if run.tier == "quick" else 5000)]
     tu_n, tu_bad = rules_corr.check_types(run, tu, info, "aimed")
     ty_n += tu_n
+    # the alias resolution of data types (xform_resolve_late_bound_data_decl) against its Coq model, on units aimed at it
+    au = [[("u.st", rules_corr.gen_alias_unit(rng))] for _ in range(400 if run.tier == "quick" else 5000)]
+    dd_n, dd_bad = rules_corr.check_datadecl(run, au + tu[:: (5 if run.tier == "quick" else 1)], info, "c02")
     # the resolution of bare identifiers in expressions (xform_resolve_late_bound_expr_kind) against its Coq model
     ek_n, ek_bad = rules_corr.check_exprkind(run, sc_sets[:: (2 if run.tier == "quick" else 1)] + aimed[:: (3 if run.tier == "quick" else 1)], info, "c02")
     # correspondence of the proved rule models with the implementation
@@ -208,6 +211,7 @@ def search(run, info):
         "rule_fact_streams_compared_with_model": rl_n,
         "type_fact_streams_compared_with_model": ty_n,
         "expression_event_streams_compared_with_model": ek_n,
+        "data_declaration_streams_compared_with_model": dd_n,
         "exhaustive": False}}
 
 
